@@ -139,6 +139,7 @@ def _worker(args):
         transitions=0,
         traces=0,
         undecided=0,
+        bulk=0,
         fam={},
         sigcount=collections.Counter(),
         error=None,
@@ -157,8 +158,9 @@ def _worker(args):
                 if (idx // chunk) % nw != wid:
                     continue
                 res = safe_run_case(mod, case)
-                st["evaluations"] += 1
-                fst["evaluations"] += 1
+                st["evaluations"] += res.get("evaluations", 1)
+                fst["evaluations"] += res.get("evaluations", 1)
+                st["bulk"] += res.get("bulk_nontrivial", 0)
                 st["outcomes"][str(res.get("outcome", "ok"))] += 1
                 st["states"] += res.get("states", 0)
                 st["transitions"] += res.get("transitions", 0)
@@ -292,7 +294,7 @@ def run_check(pid, tier, seed):
     level = mod.LEVEL
     cov = dict(
         evaluations=evaluations,
-        distinct_nontrivial=len(nontrivial) + (post.get("distinct_nontrivial", 0) if post else 0),
+        distinct_nontrivial=len(nontrivial) + sum(p["bulk"] for p in parts) + (post.get("distinct_nontrivial", 0) if post else 0),
         rule=mod.RULE,
         samples=samples or [dict(note="no non-trivial sample selected")],
         outcomes=dict(outcomes.most_common(40)),
